@@ -239,14 +239,17 @@ reg(
     "(functions whose recursion is not bounded by AST or YAML-cursor depth) must contain a call edge dominated by a depth guard (REC; hand-triaged "
     "value-driven cycles are accepted with a reason each); calls of panicking depth guards reachable from eval are reported (PANICGUARD: the deliberate "
     "assert_depth design, all known findings); allocation sizes derived from runtime numbers must be refused before allocating (ALLOC). "
-    "Arithmetic/index panics in builtins are not decided.",
+    "JQPANIC(dates) evaluates the date / time builtins (name tables indexed by weekday and month, arithmetic on broken-down times) from MIR through both "
+    "evaluators on 15 programs x 14 inputs (negative, fractional, huge and out-of-range fields): no evaluation may reach a panic. "
+    "Arithmetic/index panics in other builtins are not decided.",
     [
         only_cfgs(_lazy("cgrules", "rule_rec", entries=E_C30, name="REC(jq)", floor=50), ["cli"]),
         only_cfgs(_lazy("cgrules", "rule_panicguard", entries=E_C30, name="PANICGUARD"), ["cli"]),
         only_cfgs(_lazy("cgrules", "rule_alloc"), ["cli"]),
+        only_cfgs(_lazy("jqeval", "rule_no_panic"), ["cli"]),
     ],
     quick=["cli"],
-    technique="call-graph SCC analysis with dominance of depth guards; reachability of panicking guards; intraprocedural taint to allocation sinks",
+    technique="call-graph SCC analysis with dominance of depth guards; reachability of panicking guards; intraprocedural taint to allocation sinks; finite-domain evaluation of the date builtins' MIR (panic freedom on a family)",
 )
 
 E_C19 = [r"^(json|yaml|dsv|text)::", r"^jq::parser::parse", r"^bin::(jq_runner|yq_runner|output|jq_locate|yq_locate)::"]
